@@ -1,13 +1,15 @@
 #!/venv/bin/python
-"""Translator (code): scalar / planar predicate functions of the pure-Python implementation -> Lean.
+"""Translator (code): predicate / kernel functions of the pure-Python implementation -> Lean.
 
 On every run the CURRENT source text of `$BEZIER_REPO/src/python/bezier/hazmat/*.py` (default
 /repo) is parsed with `ast` (the package is NOT imported), every function listed in `SIGS` is
 translated statement by statement into a Lean definition, and the result is written to
 lean/BezierVerif/Generated/SrcPy.lean (namespace `BezierVerif.Src.Py`).  The kernel then re-proves,
-in lean/BezierVerif/Tables/SrcPy.lean, that each generated definition equals the hand-written model
-definition (Model/Helpers.lean, Model/Solve2x2.lean) on all inputs.  A semantic change of the
-source changes the generated term and breaks the theorem.
+in lean/BezierVerif/Tables/SrcPy.lean, Tables/SrcPyReal.lean (phase 1) and Tables/SrcPyKernels.lean
+(phase 2: loops, lists, stateful pieces, evaluation kernels), that each generated definition equals the
+hand-written model definition (Model/Helpers.lean, Model/Solve2x2.lean, Model/Geometric.lean,
+Model/Curve.lean) on the stated domain.  A semantic change of the source changes the generated term
+and breaks the theorem.
 
 Anything the translator does not understand gives `EXTRACT-PROBLEM srcpy: <function>: <what>` on
 stdout and NO definition (so the theorem about it cannot build); nothing is skipped silently.
@@ -20,43 +22,75 @@ TRUSTED PART (everything else is re-checked by the kernel through the equality t
 
  * `SIGS`: the parameter kinds of every translated function
        S    float scalar                        -> K
+       S1   NumPy array with ONE entry          -> K      (see "one parameter value" below)
+       N    int known to be >= 0                -> Nat
        P    1-D array with exactly 2 entries    -> Pt K = K x K          (v[0] = v.1, v[1] = v.2)
        V    1-D array of any length             -> List K
+       C    d x 1 array                         -> List K (its d entries)
        M22  2 x 2 array                         -> List (List K), rows;  shape checked where indexed
        M2N  2 x N array (N free)                -> List (List K), rows;  shape checked where indexed
        MN   d x N array                         -> List (List K), rows
+       SUB  SubdividedCurve object              -> Model.SubCurve K (.start, .end -> stop, .nodes)
+       ("list", k)   Python list (read only)    -> List _
+       ("mlist", k)  Python list that the function UPDATES IN PLACE: it is an argument and (the final
+                     contents) a result of the generated definition; `f(.., lst)` as a statement re-binds `lst`
    An argument that violates the declared shape (M22 / M2N) gives `Err.badInput`.
-   Default values of parameters (numeric constants only) are emitted as `<fn>_default_<param> : Rat`;
-   calls that rely on a default are not accepted.
+   Default values of parameters (numeric constants only) are emitted as `<fn>_default_<param> : Rat`
+   and filled in at calls that omit the argument.
  * `MODULES`: which source file a module alias of an `import` statement denotes (pure-Python
    configuration: the shim `bezier._helpers` binds `hazmat/helpers.py`).
  * `EXC`: exception class -> `Model.Err` constructor (the message is not modelled).
+ * `ABSTRACT` (currently empty): functions that are called but not translated would become explicit
+   parameters of the generated definitions of their callers (like `sqrt`); nothing is assumed about them.
  * the meaning given to the supported NumPy / builtin primitives (`RUNTIME` below and `prim_call`):
-   np.min/np.max(axis=1), np.abs/abs, min/max, np.vdot, np.asfortranarray/np.array literals,
-   np.all, np.linalg.norm(ord=2) (= an ABSTRACT `sqrt : K -> K` applied to the sum of squares),
-   elementwise `-` / `<=` on 1-D arrays (with NumPy's length-1 broadcasting), np.nan.
+   np.min/np.max(axis=1), np.abs/abs, min/max (also on +-inf), np.vdot, np.dot, .T, np.asfortranarray/np.array,
+   np.all, np.linalg.norm(ord=2) (= an ABSTRACT `sqrt : K -> K` applied to the sum of squares), np.inf, np.nan,
+   np.zeros / np.ones / np.empty, .shape / np.shape, len, float, range, bisect.bisect_left (= Model.bisectLeft, the
+   transcription of the library routine), elementwise `+ - *` and `<=` on arrays (1-D arrays with NumPy's length-1
+   broadcasting; 2-D arrays of EQUAL shapes only - any other pair of shapes is `Err.badInput`, NumPy's 2-D
+   broadcasting is not modelled), Python slices `a[:, lo:hi]` (clamping, negative bounds).
+ * ONE PARAMETER VALUE: the evaluation kernels of curve_helpers.py broadcast over a vector of parameter values
+   (`lambda1`, `s_vals` of shape `(num_vals,)`).  Every operation they use acts entry by entry along that axis,
+   so they are translated for `num_vals = 1`: kind S1 (a one-entry array IS a number of K, `x[np.newaxis, :]` and
+   `x[0]` are that number, `x.shape == (1,)`), a `d x 1` result is the list of its d entries (kind C), a
+   `d x 1 x k` work array is a `d x k` array (three subscripts, the middle one `:` or `0`).  That the multi-value
+   routine is the map of the one-value routine over the parameters is NumPy's broadcasting rule, not proved here.
  * float arithmetic `+ - * /` and comparisons are translated to the operations of the number type
    K (exact semantics; rounding is the subject of the correspondence scripts, not of this tie).
-   Division by zero (IEEE inf / NaN in the code) is K's total `/`.
+   Division by zero (IEEE inf / NaN in the code) is K's total `/`.  Python ints are `Int` (`Nat` where
+   declared / derived from a length, a shape, a range); an int used with floats is converted (`Rt.ofInt`).
  * `None` / `np.nan` in a result position make that position an `Option`; using a maybe-`None`
    value as a number (`TypeError` in Python) is `Rt.unwrap` = `Err.badInput` on `none`; an
-   out-of-range constant index (`IndexError`) is `Err.badInput` as well.
+   out-of-range index (`IndexError`) is `Err.badInput` as well.
  * a function some statement of which can raise (listed exception, NumPy primitive on a zero-size /
    mis-shaped array, maybe-`None` value used as a number, shape check of an M22 / M2N parameter that is
    indexed) returns `Except Err _`; raising sub-computations are sequenced in Python's evaluation order
    with `Rt.bind` (`and` / `or` stay lazy, a lazily evaluated operand of a chained comparison that can
    raise is refused).
+ * arrays that the code overwrites in place (`np.empty` + `x[:] = e`, `x[:, 0, :] = e`, `x[:, :, :j] = e`,
+   `np.zeros` + `x += e`) are re-bound; this is sound because such an array must have been created in the
+   function and every second name for it (`y = x`, storing it in a tuple / list) is refused.
 
 ACCEPTED PYTHON (per function body; docstrings ignored)
-   statements : `x = e`, `a, b, _ = e` (tuple / 2-entry array unpacking), `if/elif/else`,
-                `return e`, `return (e, ...)`, `raise Exc(...)`, `pass`
-   expressions: float/int/bool/None constants (int and float constants alike are numbers of K), constant arithmetic incl. `**` (folded exactly),
+   statements : `x = e`, `a, b, _ = e` (tuple / 2-entry array unpacking), `x op= e` (numbers, arrays created in the
+                function), `if/elif/else`, `return e`, `return (e, ...)`, `raise Exc(...)`, `pass`,
+                `for x in <iterable>:` (no else / break / continue), `lst.append(e)`, `f(.., lst)` for a translated
+                `f` that updates `lst` in place, the in-place array assignments listed above
+   iterables  : a literal tuple / `range(c)` with a constant c <= 4 (unrolled), `range(n)`, `range(a, n)` with a
+                constant a >= 0, `range(a, b, -1)` with a constant b >= 0, a list variable, a 1-D array
+   loops      : the variables that are defined before the loop and re-bound in it form the loop state (in the order
+                of their definition); no `return` inside and nothing that can raise -> `List.foldl`; can raise ->
+                `Rt.foldM`; `return` inside -> `Rt.forE` / `Rt.forM` (the step answers `Sum.inl result` or
+                `Sum.inr state`); variables first bound inside the loop are unbound after it
+   expressions: float/int/bool/None constants (int and float constants alike are numbers of K), constant
+                arithmetic incl. `**` (folded exactly),
                 names (parameters, locals, numeric module constants), `+ - * /`, unary `-`, `not`,
                 `and` / `or` (short-circuit kept when the right operand can raise), comparisons
-                incl. chains, `v[0]`, `m[i, j]`, `m[:, j]`, `m[i, -1]`, `m[:, -1]` with constant
-                indices, tuples, `Class.ATTR` of a plain class with int attributes (enum),
-                calls of other translated functions (positional arguments only) and of the
-                primitives listed above.
+                incl. chains, `v[0]`, `m[i, j]`, `m[:, j]`, `m[:, [j]]`, `m[i, -1]`, `m[:, -1]`, `m[:, lo:hi]`,
+                `lst[i]`, `tup[i]`, tuples, list literals, `[]`, `obj.start/.end/.nodes`, `m.T`, `m.shape`,
+                `Class.ATTR` of a plain class with int attributes (enum),
+                calls of other translated functions (positional arguments) and of the
+                primitives listed above; truth value of a list (`if not lst`).
    control    : early `return` = the remainder of the block becomes the `else` branch; an `if`
                 without `return`/`raise` inside = simultaneous `let (x, y) := if .. then .. else ..`
                 over the variables assigned in it (both arms must define them, or they must be
@@ -90,13 +124,35 @@ SIGS = [
     ("clipping", "compute_implicit_line", ["M2N"]),
     ("clipping", "_update_parameters", ["S", "S", "P", "P", "P", "P"]),
     ("triangle_helpers", "two_by_two_det", ["M22"]),
+    # phase 2: loops and the small stateful pieces of the intersection pipeline
+    ("helpers", "is_separating", ["P", "M2N", "M2N"]),
+    ("helpers", "polygon_collide", ["M2N", "M2N"]),
+    ("helpers", "in_sorted", [("list", "N"), "N"]),
+    ("helpers", "matrix_product", ["MN", "MN"]),
+    ("geometric_intersection", "linearization_error", ["MN"]),
+    ("curve_helpers", "de_casteljau_one_round", ["MN", "S", "S"]),
+    ("curve_helpers", "evaluate_multi_vs", ["MN", "S1", "S1"]),
+    ("curve_helpers", "evaluate_multi_de_casteljau", ["MN", "S1", "S1"]),
+    ("curve_helpers", "evaluate_multi_barycentric", ["MN", "S1", "S1"]),
+    ("curve_helpers", "evaluate_multi", ["MN", "S1"]),
+    ("curve_helpers", "evaluate_hodograph", ["S", "MN"]),
+    ("curve_helpers", "newton_refine", ["MN", "C", "S"]),
+    ("geometric_intersection", "add_intersection", ["S", "S", ("mlist", ("tuple", ("S", "S")))]),
+    ("geometric_intersection", "endpoint_check", ["SUB", "V", "S", "SUB", "V", "S", ("mlist", ("tuple", ("S", "S")))]),
+    ("geometric_intersection", "tangent_bbox_intersection", ["SUB", "SUB", ("mlist", ("tuple", ("S", "S")))]),
 ]
 MODULES = {
     "bezier.hazmat.helpers": "helpers",
     "bezier.hazmat.geometric_intersection": "geometric_intersection",
     "bezier.hazmat.clipping": "clipping",
     "bezier.hazmat.triangle_helpers": "triangle_helpers",
+    "bezier.hazmat.intersection_helpers": "intersection_helpers",
+    "bezier.hazmat.curve_helpers": "curve_helpers",
     "bezier._helpers": "helpers",                      # shim, pure-Python configuration
+}
+# functions that are CALLED by translated functions but not translated themselves: the generated definitions of their
+# (transitive) callers take them as an explicit parameter, like `sqrt`; nothing is assumed about them
+ABSTRACT = {
 }
 EXC = {"NotImplementedError": "notImplemented", "ValueError": "valueError",
        "RuntimeError": "runtimeError", "UnsupportedDegree": "unsupportedDegree"}
@@ -153,6 +209,138 @@ def vzip {β : Type} (f : K → K → β) (a b : List K) : Except Err (List β) 
     | _, [y] => .ok (a.map (fun x => f x y))
     | _, _ => .error .valueError
 
+/-! ### phase 2: Python ints, `±inf`, lists, shapes, loops -/
+
+/-- a Python int used in float arithmetic -/
+def ofInt (i : Int) : K := if i < 0 then -((i.natAbs : Nat) : K) else ((i.natAbs : Nat) : K)
+
+/-- `row[j]` with a Python int `j`: negative `j` counts from the end; `IndexError` outside `-len .. len-1` -/
+def idxI (r : List K) (j : Int) : Except Err K :=
+  if 0 ≤ j then idx r j.toNat
+  else if -(r.length : Int) ≤ j then idx r ((r.length : Int) + j).toNat
+  else .error .badInput
+
+/-- `lst[i]` of a Python list, `i ≥ 0` (`IndexError`) -/
+def lidx {α : Type} (l : List α) (i : Nat) : Except Err α :=
+  match l[i]? with
+  | some v => .ok v
+  | none => .error .badInput
+
+/-- `nodes.shape[1]` of a `2 × N` array: both rows have `N` entries (anything else is not an array: `badInput`) -/
+def shape2 (r0 r1 : List K) : Except Err Nat :=
+  if r0.length = r1.length then .ok r0.length else .error .badInput
+
+/-- `nodes.shape` of a `d × N` array given by its rows (rows of unequal length are not an array: `badInput`;
+    zero rows: `(0, 0)`) -/
+def shape (m : List (List K)) : Except Err (Nat × Nat) :=
+  match m with
+  | [] => .ok (0, 0)
+  | r :: rs => if rs.all (fun x => x.length == r.length) then .ok (rs.length + 1, r.length) else .error .badInput
+
+/-- `lst[lo:hi]` of Python (bounds clamped, negative bounds count from the end; never raises) -/
+def sliceIdx (n : Nat) (i : Int) : Nat := if i < 0 then ((n : Int) + i).toNat else min i.toNat n
+
+def slice {α : Type} (r : List α) (lo hi : Option Int) : List α :=
+  let a := match lo with
+    | none => 0
+    | some i => sliceIdx r.length i
+  let b := match hi with
+    | none => r.length
+    | some i => sliceIdx r.length i
+  (r.drop a).take (b - a)
+
+/-- `nodes[:, lo:hi]` of a `d × N` array -/
+def cols (m : List (List K)) (lo hi : Option Int) : List (List K) := m.map fun r => slice r lo hi
+
+/-- entrywise function of a `d × N` array (`c * A`, `A * c`, `np.abs(A)`) -/
+def mmap (f : K → K) (m : List (List K)) : List (List K) := m.map fun r => r.map f
+
+/-- `A + B` / `A - B` of two 2-D arrays OF THE SAME SHAPE (NumPy's broadcasting of 2-D arrays is not modelled:
+    any other pair of shapes is `Err.badInput`) -/
+def mzip (f : K → K → K) : List (List K) → List (List K) → Except Err (List (List K))
+  | [], [] => .ok []
+  | ra :: a, rb :: b =>
+    if ra.length = rb.length then bind (mzip f a b) fun rest => .ok (List.zipWith f ra rb :: rest)
+    else .error .badInput
+  | _, _ => .error .badInput
+
+/-- the `d × k` array all of whose entries are `c` (`x[...] = c`) -/
+def mfill (d k : Nat) (c : K) : List (List K) := List.replicate d (List.replicate k c)
+
+/-- `x[...] = e` for an array `x` of shape `d × k`: `e` must have that shape (broadcasting of `e` is not modelled: `badInput`) -/
+def asShape (d k : Nat) (e : List (List K)) : Except Err (List (List K)) :=
+  if e.length = d ∧ e.all (fun r => r.length == k) = true then .ok e else .error .badInput
+
+/-- `x[:, lo:hi] = e` row by row: the replaced stretch and the row of `e` must have the same length (`badInput`) -/
+def setCols (m : List (List K)) (lo hi : Option Int) : List (List K) → Except Err (List (List K)) :=
+  fun e => match m, e with
+  | [], [] => .ok []
+  | r :: m', er :: e' =>
+    let a := match lo with
+      | none => 0
+      | some i => sliceIdx r.length i
+    let b := match hi with
+      | none => r.length
+      | some i => sliceIdx r.length i
+    if er.length = b - a then bind (setCols m' lo hi e') fun rest => .ok ((r.take a ++ er ++ r.drop (max a b)) :: rest)
+    else .error .badInput
+  | _, _ => .error .badInput
+
+/-- `np.dot(A, B)` of two 2-D arrays: every row of `A` must have as many entries as `B` has rows (`ValueError`) -/
+def npDot (a b : List (List K)) : Except Err (List (List K)) :=
+  if a.all (fun r => r.length == b.length) then .ok (Model.matMul a b) else .error .valueError
+
+/-- a float that may be `-inf` / `+inf` (`np.inf`) -/
+inductive Ext (K : Type) where
+  | ninf
+  | fin (x : K)
+  | pinf
+
+/-- `a < b` on possibly infinite values -/
+def Ext.lt : Ext K → Ext K → Bool
+  | .ninf, .ninf => false
+  | .ninf, _ => true
+  | .fin _, .ninf => false
+  | .fin a, .fin b => decide (a < b)
+  | .fin _, .pinf => true
+  | .pinf, _ => false
+
+/-- the builtin `min(a, b)`: `b if b < a else a` -/
+def Ext.min (a b : Ext K) : Ext K := if Ext.lt b a then b else a
+
+/-- the builtin `max(a, b)`: `b if b > a else a` -/
+def Ext.max (a b : Ext K) : Ext K := if Ext.lt a b then b else a
+
+def Ext.neg : Ext K → Ext K
+  | .ninf => .pinf
+  | .fin x => .fin (-x)
+  | .pinf => .ninf
+
+/-- `for x in xs: state = step(state, x)` where the step can raise -/
+def foldM {α σ : Type} (xs : List α) (init : σ) (step : σ → α → Except Err σ) : Except Err σ :=
+  match xs with
+  | [] => .ok init
+  | x :: xs => bind (step init x) fun s => foldM xs s step
+
+/-- `for x in xs:` with early `return`: the step answers `Sum.inl r` (return `r`) or `Sum.inr state` (go on) -/
+def forE {α σ ρ : Type} (xs : List α) (init : σ) (step : σ → α → ρ ⊕ σ) : ρ ⊕ σ :=
+  match xs with
+  | [] => .inr init
+  | x :: xs =>
+    match step init x with
+    | .inl r => .inl r
+    | .inr s => forE xs s step
+
+/-- the same where the step can raise -/
+def forM {α σ ρ : Type} (xs : List α) (init : σ) (step : σ → α → Except Err (ρ ⊕ σ)) : Except Err (ρ ⊕ σ) :=
+  match xs with
+  | [] => .ok (.inr init)
+  | x :: xs =>
+    bind (step init x) fun res =>
+      match res with
+      | .inl r => .ok (.inl r)
+      | .inr s => forM xs s step
+
 end Rt
 """
 
@@ -163,7 +351,7 @@ LEAN_KEYWORDS = {"end", "at", "from", "then", "else", "do", "open", "show", "hav
                  "e", "K", "sqrt", "Model", "Rt", "Err", "Pt", "some", "none", "true", "false", "id", "decide",
                  "List", "Except", "Option", "Nat", "Bool", "Src", "Py", "BezierVerif"}
 # a local variable must not capture a generated global either
-LEAN_KEYWORDS |= {fn for _, fn, _ in SIGS}
+LEAN_KEYWORDS |= {fn for _, fn, _ in SIGS} | {fn for _, fn in ABSTRACT}
 
 
 class Problem(Exception):
@@ -194,11 +382,35 @@ def is_tuple(k):
     return isinstance(k, tuple) and k[0] == "tuple"
 
 
+def is_list(k):
+    return isinstance(k, tuple) and k[0] == "list"
+
+
+def kstr(k):
+    """kind as written in the doc comment of a generated definition"""
+    if isinstance(k, str):
+        return k
+    if k[0] == "mlist":
+        return "L!(%s)" % kstr(k[1])
+    if k[0] == "list":
+        return "L(%s)" % ("?" if k[1] is None else kstr(k[1]))
+    if k[0] == "tuple":
+        return "(" + ",".join(kstr(c) for c in k[1]) + ")"
+    return repr(k)
+
+
 def lty(k):
     base = {"S": "K", "B": "Bool", "E": "Nat", "P": "Pt K", "V": "List K", "VB": "List Bool",
-            "M22": "List (List K)", "M2N": "List (List K)", "MN": "List (List K)"}
-    if k in base:
+            "M22": "List (List K)", "M2N": "List (List K)", "MN": "List (List K)",
+            "I": "Int", "N": "Nat", "X": "Rt.Ext K", "SUB": "Model.SubCurve K", "C": "List K", "S1": "K"}
+    if isinstance(k, str) and k in base:
         return base[k]
+    if isinstance(k, tuple) and k[0] == "mlist":
+        return lty(("list", k[1]))
+    if is_list(k):
+        if k[1] is None:
+            raise Problem("a list whose element kind is never determined")
+        return "List %s" % atom(lty(k[1]))
     if is_opt(k):
         return "Option %s" % atom(lty(k[1]))
     if is_tuple(k):
@@ -209,6 +421,14 @@ def lty(k):
 def unify(a, b):
     if a == b:
         return a
+    if {a, b} == {"S", "X"}:
+        return "X"
+    if {a, b} == {"N", "I"}:
+        return "I"
+    if is_list(a) and is_list(b):
+        if a[1] is None or b[1] is None:
+            return a if b[1] is None else b
+        return ("list", unify(a[1], b[1]))
     if a in ("none", "nan"):
         a, b = b, a
     if b == "none":
@@ -254,7 +474,12 @@ def atom(code):
 
 
 class Val:
-    def __init__(self, kind, code, comps=None, prop=None, cells=None, rows=None):
+    def __init__(self, kind, code, comps=None, prop=None, cells=None, rows=None, intval=None, inplace=False):
+        self.intval = intval      # S: the value of an integer-typed constant expression (Python int)
+        self.unit = False         # S: a NumPy array with a single entry (all of its dimensions are 1)
+        self.owned = False        # a fresh array (np.zeros): the variable it is bound to may be updated with `op=`
+        self.wide = False         # MN: a 3-D array d x 1 x k (one parameter value), indexed with three subscripts
+        self.inplace = inplace    # an array that the function overwrites in place (must not be aliased)
         self.kind = kind
         self.code = code          # Lean term of type lty(kind)
         self.comps = comps        # tuple: [Val]; P: [code, code]
@@ -321,11 +546,25 @@ class Fail:
         self.err = err
 
 
+class Next:                       # end of the body of a loop with early exit: continue with this state
+    def __init__(self, code):
+        self.code = code
+
+
+class Loop:
+    """for target in iter: body ; rest.   state = the variables carried from one iteration to the next"""
+    def __init__(self, it, target, spat, init, sty, body, rest, has_exit, r, res):
+        self.it, self.target, self.spat, self.init, self.sty = it, target, spat, init, sty
+        self.body, self.rest, self.has_exit, self.r, self.res = body, rest, has_exit, r, res
+
+
 def impure(ir):
     if isinstance(ir, (Bind, Shape, Fail)):
         return True
-    if isinstance(ir, (Leaf, Yield)):
+    if isinstance(ir, (Leaf, Yield, Next)):
         return False
+    if isinstance(ir, Loop):
+        return impure(ir.body) or impure(ir.rest)
     if isinstance(ir, Let):
         return impure(ir.body)
     if isinstance(ir, Ite):
@@ -357,8 +596,8 @@ class Module:
                 self.funcs[node.name] = node
             elif isinstance(node, ast.Import):
                 for a in node.names:
-                    if a.name == "numpy":
-                        self.aliases[a.asname or a.name] = "numpy"
+                    if a.name in ("numpy", "bisect"):
+                        self.aliases[a.asname or a.name] = a.name
             elif isinstance(node, ast.ImportFrom) and node.level == 0:
                 for a in node.names:
                     full = "%s.%s" % (node.module, a.name)
@@ -378,9 +617,12 @@ class Module:
 
 
 class Translated:
-    def __init__(self, name, params, kinds, ret, monadic, uses_sqrt, text):
+    def __init__(self, name, params, kinds, ret, monadic, uses_sqrt, text, defaults=(), mut=(), ret_none=False):
         self.name, self.params, self.kinds, self.ret = name, params, kinds, ret
-        self.monadic, self.uses_sqrt, self.text = monadic, uses_sqrt, text
+        self.monadic, self.uses_sqrt, self.text = monadic, uses_sqrt, text   # uses_sqrt: the abstract parameters, in order
+        self.defaults = dict(defaults)     # parameter -> exact default value
+        self.mut = list(mut)               # positions of the list parameters the function updates in place
+        self.ret_none = ret_none           # every `return` delivers None
 
 
 class Translator:
@@ -435,8 +677,8 @@ def contains_exit(stmts):
     return False
 
 
-def assigned_names(stmts):
-    """names assigned somewhere in the block, in order of first occurrence"""
+def assigned_names(stmts, env):
+    """names (re-)bound somewhere in the block, in order of first occurrence"""
     out = []
 
     def targets(t):
@@ -446,6 +688,8 @@ def assigned_names(stmts):
         elif isinstance(t, (ast.Tuple, ast.List)):
             for e in t.elts:
                 targets(e)
+        elif isinstance(t, ast.Subscript) and isinstance(t.value, ast.Name):
+            targets(t.value)                       # x[...] = e  re-binds x
         else:
             raise Problem("assignment target %s" % ast.dump(t)[:60])
 
@@ -454,10 +698,24 @@ def assigned_names(stmts):
             if isinstance(st, ast.Assign):
                 for t in st.targets:
                     targets(t)
+            elif isinstance(st, ast.AugAssign):
+                targets(st.target)
             elif isinstance(st, ast.If):
                 walk(st.body)
                 walk(st.orelse)
-            elif isinstance(st, (ast.AugAssign, ast.AnnAssign, ast.For, ast.While, ast.With, ast.Try)):
+            elif isinstance(st, ast.For):
+                targets(st.target)
+                walk(st.body)
+                walk(st.orelse)
+            elif isinstance(st, ast.Expr) and isinstance(st.value, ast.Call):
+                # x.append(e) and f(.., x, ..) re-bind a list variable x
+                c = st.value
+                if isinstance(c.func, ast.Attribute) and isinstance(c.func.value, ast.Name) and c.func.attr == "append":
+                    targets(c.func.value)
+                for a in c.args:
+                    if isinstance(a, ast.Name) and a.id in env and is_list(env[a.id].kind) and a.id not in out:
+                        out.append(a.id)
+            elif isinstance(st, (ast.AnnAssign, ast.While, ast.With, ast.Try)):
                 raise Problem("statement %s (line %d)" % (type(st).__name__, st.lineno))
     walk(stmts)
     return out
@@ -471,6 +729,10 @@ def definitely_assigned(stmts):
                 for n in ast.walk(t):
                     if isinstance(n, ast.Name):
                         out.add(n.id)
+        elif isinstance(st, ast.AugAssign):
+            for n in ast.walk(st.target):
+                if isinstance(n, ast.Name):
+                    out.add(n.id)
         elif isinstance(st, ast.If):
             out |= definitely_assigned(st.body) & definitely_assigned(st.orelse)
     return out
@@ -480,11 +742,16 @@ class FunctionTranslator:
     def __init__(self, tr, mod, fn):
         self.tr, self.modname, self.fn = tr, mod, fn
         self.mod = tr.module(mod)
-        self.uses_sqrt = False
+        self.extra = []          # abstract parameters of the generated definition: "sqrt", untranslated callees
         self.ntmp = 0
         self.names = set()
         self.struct_used = set()
         self.locals_ = set()
+        self.prealloc = {}       # name -> kind of an array created by np.empty (no value until overwritten)
+        self.mut_params = []     # list parameters that are updated in place (their final value is returned)
+        self.ro_lists = set()    # list parameters that are NOT declared mutable
+        self.plain_rets = []
+        self.guarded = set()     # shape entries already checked to be non-negative
 
     def tmp(self):
         while True:
@@ -542,11 +809,19 @@ class FunctionTranslator:
                     raise Problem("a local name collides with the generated names %s_r0/_r1" % lp)
                 env[p] = Val(k, lp, rows=rows)
                 shapes.append((lp, "[%s, %s]" % (rows[0], rows[1]), rows))
+            elif isinstance(k, tuple) and k[0] == "mlist":
+                env[p] = Val(("list", k[1]), lp)
+                self.mut_params.append(p)
+            elif k == "S1":
+                env[p] = Val("S", lp)
+                env[p].unit = True
             else:
                 env[p] = Val(k, lp)
+                if is_list(k):
+                    self.ro_lists.add(p)
         body = list(node.body)
         self.ret_kinds = []
-        ir = self.block(body, env, lambda e: self.leaf(Val("none", "none")))
+        ir = self.block(body, env, lambda e: self.leaf(Val("none", "none"), e, "end of the function"))
         for lp, pat, names in reversed(shapes):
             if self.struct_used & set(names):      # only parameters that are indexed here (callees check theirs)
                 ir = Shape(lp, pat, ir)
@@ -560,8 +835,12 @@ class FunctionTranslator:
         monadic = impure(ir)
         text = self.render(ir, monadic, 1)
         binders = []
-        if self.uses_sqrt:
-            binders.append("(sqrt : K → K)")
+        for x in self.extra:
+            if x == "sqrt":
+                binders.append("(sqrt : K → K)")
+            else:
+                ak, ar = ABSTRACT[x]
+                binders.append("(%s : %s → Except Err %s)" % (x[1], " → ".join(atom(lty(k)) for k in ak), atom(lty(ar))))
         i = 0
         while i < len(params):            # group consecutive parameters of the same kind
             j = i
@@ -570,14 +849,24 @@ class FunctionTranslator:
             binders.append("(%s : %s)" % (" ".join(lname(p) for p in params[i:j + 1]), lty(kinds[i])))
             i = j + 1
         head = "/-- `%s.%s(%s)` (hazmat/%s.py), parameter kinds %s -/\ndef %s %s : %s :=\n" % (
-            self.modname, self.fn, ", ".join(params), self.modname, " ".join(kinds), self.fn, " ".join(binders),
+            self.modname, self.fn, ", ".join(params), self.modname, " ".join(kstr(k) for k in kinds), self.fn, " ".join(binders),
             ("Except Err %s" % atom(rty)) if monadic else rty)
         dtext = "".join("/-- default value of parameter `%s` of `%s` -/\ndef %s_default_%s : Rat := %s\n\n"
                         % (p, self.fn, self.fn, p, "(%d : Rat) / %d" % (v.numerator, v.denominator))
                         for p, v in defaults)
-        return Translated(self.fn, params, kinds, ret, monadic, self.uses_sqrt, dtext + head + text)
+        return Translated(self.fn, params, kinds, ret, monadic, list(self.extra), dtext + head + text, defaults=defaults,
+                          mut=[i for i, p in enumerate(params) if p in self.mut_params],
+                          ret_none=all(kd == "none" for kd in self.plain_rets))
 
-    def leaf(self, val):
+    def leaf(self, val, env, where):
+        """`return val`: with mutable list parameters the function delivers their final contents as well"""
+        if is_list(val.kind) and val.kind[1] is None:
+            raise Problem("return of an untyped empty list (%s)" % where)
+        self.plain_rets.append(val.kind)
+        if self.mut_params:
+            comps = ([] if val.kind == "none" else [val]) + [env[p] for p in self.mut_params]
+            val = comps[0] if len(comps) == 1 else Val(("tuple", tuple(c.kind for c in comps)),
+                                                       "(" + ", ".join(c.code for c in comps) + ")", comps=comps)
         self.ret_kinds.append(val.kind)
         return Leaf(val)
 
@@ -585,6 +874,12 @@ class FunctionTranslator:
     def coerce(self, val, target):
         k = val.kind
         if k == target:
+            return val.code
+        if k == "S" and target == "X":
+            return "Rt.Ext.fin %s" % atom(val.code)
+        if k == "N" and target == "I":
+            return "(%s : Int)" % val.code
+        if is_list(k) and is_list(target) and (k[1] is None or k[1] == target[1]):
             return val.code
         if is_opt(target):
             if k in ("none", "nan"):
@@ -598,51 +893,78 @@ class FunctionTranslator:
             return "(" + ", ".join(self.coerce(c, t) for c, t in zip(val.comps, target[1])) + ")"
         raise Problem("cannot convert result of kind %r to %r" % (k, target))
 
-    def render(self, ir, monadic, ind):
+    def render(self, ir, monadic, ind, ctx="fn"):
+        """ctx = "fn": a `return` ends the function;  "loop": it ends the enclosing loop with `Sum.inl value`"""
         pad = "  " * ind
 
         def ok(code):
             return (".ok %s" % atom(code)) if monadic else code
 
         if isinstance(ir, Leaf):
-            return pad + ok(self.coerce(ir.val, self.ret)) + "\n"
+            c = self.coerce(ir.val, self.ret)
+            return pad + ok(c if ctx == "fn" else "Sum.inl %s" % atom(c)) + "\n"
         if isinstance(ir, Yield):
             return pad + ok(ir.code) + "\n"
+        if isinstance(ir, Next):
+            return pad + ok("Sum.inr %s" % atom(ir.code)) + "\n"
         if isinstance(ir, Fail):
             return pad + ".error .%s\n" % ir.err
         if isinstance(ir, Let):
-            return pad + "let %s := %s\n" % (ir.pat, ir.code) + self.render(ir.body, monadic, ind)
+            return pad + "let %s := %s\n" % (ir.pat, ir.code) + self.render(ir.body, monadic, ind, ctx)
         if isinstance(ir, Bind):
             assert monadic
             if isinstance(ir.code, MIf):
-                scrut = (pad + "  (if %s then\n" % ir.code.cond + self.render(ir.code.then, True, ind + 2)
-                         + pad + "  else\n" + self.render(ir.code.els, True, ind + 2).rstrip("\n")
+                scrut = (pad + "  (if %s then\n" % ir.code.cond + self.render(ir.code.then, True, ind + 2, ctx)
+                         + pad + "  else\n" + self.render(ir.code.els, True, ind + 2, ctx).rstrip("\n")
                          + " : Except Err %s)" % atom(ir.code.ty))
             else:
                 scrut = ir.code
             # `m >>= pure` is `m`
             b = ir.body
             if (isinstance(b, Yield) and b.code == ir.pat) or \
-                    (isinstance(b, Leaf) and b.val.code == ir.pat and b.val.kind == self.ret):
+                    (isinstance(b, Leaf) and ctx == "fn" and b.val.code == ir.pat and b.val.kind == self.ret):
                 return pad + scrut.lstrip() + "\n"
             if isinstance(ir.code, MIf):
-                return (pad + "Rt.bind\n" + scrut + " fun %s =>\n" % ir.pat + self.render(ir.body, monadic, ind))
-            return pad + "Rt.bind (%s) fun %s =>\n" % (scrut, ir.pat) + self.render(ir.body, monadic, ind)
+                return (pad + "Rt.bind\n" + scrut + " fun %s =>\n" % ir.pat + self.render(ir.body, monadic, ind, ctx))
+            return pad + "Rt.bind (%s) fun %s =>\n" % (scrut, ir.pat) + self.render(ir.body, monadic, ind, ctx)
         if isinstance(ir, Shape):
             assert monadic
             return (pad + "(match %s with\n" % ir.code + pad + "| %s =>\n" % ir.pat
-                    + self.render(ir.body, monadic, ind + 1) + pad + "| _ => .error .badInput)\n")
+                    + self.render(ir.body, monadic, ind + 1, ctx) + pad + "| _ => .error .badInput)\n")
         if isinstance(ir, Ite):
-            return (pad + "if %s then\n" % ir.cond + self.render(ir.then, monadic, ind + 1) + pad + "else\n"
-                    + self.render(ir.els, monadic, ind + 1))
+            return (pad + "if %s then\n" % ir.cond + self.render(ir.then, monadic, ind + 1, ctx) + pad + "else\n"
+                    + self.render(ir.els, monadic, ind + 1, ctx))
         if isinstance(ir, Phi):
             arms_m = impure(ir.then) or impure(ir.els)
             if arms_m:
                 assert monadic
-                return self.render(Bind(ir.pat, MIf(ir.cond, ir.then, ir.els, ir.ty), ir.body), monadic, ind)
-            cond = (pad + "  (if %s then\n" % ir.cond + self.render(ir.then, arms_m, ind + 2) + pad + "  else\n"
-                    + self.render(ir.els, arms_m, ind + 2).rstrip("\n") + ")\n")
-            return pad + "let %s :=\n" % ir.pat + cond + self.render(ir.body, monadic, ind)
+                return self.render(Bind(ir.pat, MIf(ir.cond, ir.then, ir.els, ir.ty), ir.body), monadic, ind, ctx)
+            cond = (pad + "  (if %s then\n" % ir.cond + self.render(ir.then, arms_m, ind + 2, ctx) + pad + "  else\n"
+                    + self.render(ir.els, arms_m, ind + 2, ctx).rstrip("\n") + ")\n")
+            return pad + "let %s :=\n" % ir.pat + cond + self.render(ir.body, monadic, ind, ctx)
+        if isinstance(ir, Loop):
+            bm = impure(ir.body)
+            init = "(%s : %s)" % (ir.init, ir.sty)
+            if not ir.has_exit:
+                body = self.render(ir.body, bm, ind + 2, ctx).rstrip("\n")
+                if not bm:
+                    return (pad + "let %s :=\n" % ir.spat + pad + "  List.foldl (fun %s %s =>\n" % (ir.spat, ir.target)
+                            + body + ") %s %s\n" % (init, atom(ir.it)) + self.render(ir.rest, monadic, ind, ctx))
+                assert monadic
+                return (pad + "Rt.bind (Rt.foldM %s %s fun %s %s =>\n" % (atom(ir.it), init, ir.spat, ir.target)
+                        + body + ") fun %s =>\n" % ir.spat + self.render(ir.rest, monadic, ind, ctx))
+            rho = atom(lty(self.ret))
+            body = self.render(ir.body, bm, ind + 2, "loop").rstrip("\n")
+            leave = ok(ir.r if ctx == "fn" else "Sum.inl %s" % ir.r)
+            if not bm:
+                return (pad + "(match Rt.forE (ρ := %s) %s %s (fun %s %s =>\n" % (rho, atom(ir.it), init, ir.spat, ir.target)
+                        + body + ") with\n" + pad + "| .inl %s => %s\n" % (ir.r, leave)
+                        + pad + "| .inr %s =>\n" % ir.spat + self.render(ir.rest, monadic, ind + 1, ctx).rstrip("\n") + ")\n")
+            assert monadic
+            return (pad + "Rt.bind (Rt.forM (ρ := %s) %s %s fun %s %s =>\n" % (rho, atom(ir.it), init, ir.spat, ir.target)
+                    + body + ") fun %s =>\n" % ir.res
+                    + pad + "(match %s with\n" % ir.res + pad + "| .inl %s => %s\n" % (ir.r, leave)
+                    + pad + "| .inr %s =>\n" % ir.spat + self.render(ir.rest, monadic, ind + 1, ctx).rstrip("\n") + ")\n")
         raise AssertionError(ir)
 
     # -------------------------------------------------------------- statements
@@ -659,9 +981,9 @@ class FunctionTranslator:
             if rest:
                 raise Problem("unreachable statements after return (%s)" % where)
             if st.value is None:
-                return self.leaf(Val("none", "none"))
+                return self.leaf(Val("none", "none"), env, where)
             binds, v = self.tx(st.value, env)
-            return wrap(binds, self.leaf(v))
+            return wrap(binds, self.leaf(v, env, where))
         if isinstance(st, ast.Raise):
             if rest:
                 raise Problem("unreachable statements after raise (%s)" % where)
@@ -675,8 +997,25 @@ class FunctionTranslator:
             if len(st.targets) != 1:
                 raise Problem("chained assignment (%s)" % where)
             return self.assign(st.targets[0], st.value, rest, env, k, where)
+        if isinstance(st, ast.AugAssign):
+            ok_aug = isinstance(st.target, ast.Name) and st.target.id in env and (
+                env[st.target.id].kind in ("S", "I", "N") or (env[st.target.id].kind == "C" and env[st.target.id].inplace))
+            if not ok_aug:
+                raise Problem("augmented assignment to something else than a number variable or an array created in "
+                              "this function (%s)" % where)
+            self.aug_owner = st.target.id if env[st.target.id].kind == "C" else None
+            new = ast.Assign(targets=[ast.Name(id=st.target.id, ctx=ast.Store())],
+                             value=ast.BinOp(left=ast.Name(id=st.target.id, ctx=ast.Load()), op=st.op, right=st.value))
+            ast.copy_location(new, st)
+            ast.fix_missing_locations(new)
+            return self.block([new] + rest, env, k)
+        if isinstance(st, ast.Expr) and isinstance(st.value, ast.Call):
+            return self.call_stmt(st.value, rest, env, k, where)
+        if isinstance(st, ast.For):
+            return self.for_loop(st, rest, env, k, where)
         if isinstance(st, ast.If):
             binds, c = self.tx(st.test, env)
+            c = self.truth(c)
             if c.kind != "B":
                 raise Problem("condition of kind %r (%s)" % (c.kind, where))
             cond = c.prop if c.prop is not None else c.code
@@ -684,7 +1023,7 @@ class FunctionTranslator:
                 def kk(e):
                     return self.block(rest, e, k)
                 return wrap(binds, Ite(cond, self.block(st.body, dict(env), kk), self.block(st.orelse, dict(env), kk)))
-            names = assigned_names(st.body + st.orelse)
+            names = assigned_names(st.body + st.orelse, env)
             both = definitely_assigned(st.body) & definitely_assigned(st.orelse)
             phi = [n for n in names if n in env or n in both]
             lost = [n for n in names if n not in phi]
@@ -727,9 +1066,273 @@ class FunctionTranslator:
             return wrap(binds, Phi(pat, cond, ir_a, ir_b, self.block(rest, env2, k), ty if phi else "Unit"))
         raise Problem("statement %s (%s)" % (type(st).__name__, where))
 
+    def truth(self, c):
+        """truth value of a list: non-empty"""
+        if is_list(c.kind):
+            return Val("B", "!(List.isEmpty %s)" % atom(c.code))
+        return c
+
+    def call_stmt(self, c, rest, env, k, where):
+        f = c.func
+        if isinstance(f, ast.Attribute) and f.attr == "append" and isinstance(f.value, ast.Name) and f.value.id in env \
+                and is_list(env[f.value.id].kind):
+            name = f.value.id
+            if len(c.args) != 1 or c.keywords:
+                raise Problem("append with this argument list (%s)" % where)
+            if name in self.ro_lists:
+                raise Problem("append to the list parameter %s, which the signature table does not declare mutable (%s)"
+                              % (name, where))
+            cur = env[name]
+            binds, v = self.tx(c.args[0], env)
+            if v.inplace or v.kind in ("none", "nan", "VB"):
+                raise Problem("append of a value of kind %r / of an array overwritten in place (%s)" % (v.kind, where))
+            ek = v.kind if cur.kind[1] is None else cur.kind[1]
+            if unify(ek, v.kind) != ek:
+                raise Problem("list %s of kind %r gets an element of kind %r (%s)" % (name, ek, v.kind, where))
+            env2 = dict(env)
+            env2[name] = Val(("list", ek), lname(name))
+            return wrap(binds, Let(lname(name), "%s ++ [%s]" % (atom(cur.code), self.coerce(v, ek)),
+                                   self.block(rest, env2, k)))
+        binds, v, muts = self.call(c, env, where, stmt=True)
+        if not muts:
+            raise Problem("call whose result is discarded (%s)" % where)
+        env2 = dict(env)
+        for n, kd in muts:
+            env2[n] = Val(kd, lname(n))
+        pat = lname(muts[0][0]) if len(muts) == 1 else "(" + ", ".join(lname(n) for n, _ in muts) + ")"
+        if binds and binds[-1][0] == "bind" and binds[-1][1] == v.code:
+            binds = binds[:-1] + [("bind", pat, binds[-1][2])]
+            return wrap(binds, self.block(rest, env2, k))
+        return wrap(binds, Let(pat, v.code, self.block(rest, env2, k)))
+
+    def iterable(self, it, env, where):
+        """(binds, Lean list, kind of the elements)"""
+        if isinstance(it, ast.Call) and isinstance(it.func, ast.Name) and it.func.id == "range" and "range" not in env:
+            if not it.keywords and len(it.args) == 3 and self.const_int(it.args[2]) == -1:
+                # range(a, b, -1) = a, a-1, ..., b+1   with a constant b >= 0
+                binds, av = self.tx(it.args[0], env)
+                b2, bv = self.tx(it.args[1], env)
+                binds += b2
+                if not self.is_int(av) or bv.intval is None or bv.intval < 0:
+                    raise Problem("descending range with these bounds (%s)" % where)
+                return binds, "List.reverse (List.range' %d (%s - %d))" % (bv.intval + 1, self.dim_nat(av), bv.intval), "N"
+            if it.keywords or not 1 <= len(it.args) <= 2:
+                raise Problem("range with this argument list (%s)" % where)
+            binds, vals = [], []
+            for a in it.args:
+                b, v = self.tx(a, env)
+                binds += b
+                if not self.is_int(v):
+                    raise Problem("range over a value of kind %r (%s)" % (v.kind, where))
+                vals.append(v)
+            stop = vals[-1]
+            stop_code = self.as_nat(stop) if self.natlike(stop) else "Int.toNat %s" % atom(self.as_int(stop))
+            if len(vals) == 1:
+                return binds, "List.range %s" % atom(stop_code), "N"
+            if vals[0].intval is None or vals[0].intval < 0:
+                raise Problem("the start of a range must be a non-negative integer constant (%s)" % where)
+            return binds, "List.range' %d (%s - %d)" % (vals[0].intval, stop_code, vals[0].intval), "N"
+        binds, v = self.tx(it, env)
+        if is_list(v.kind) and v.kind[1] is not None:
+            return binds, v.code, v.kind[1]
+        if v.kind == "V":
+            return binds, v.code, "S"
+        raise Problem("loop over a value of kind %r (%s)" % (v.kind, where))
+
+    def for_loop(self, st, rest, env, k, where):
+        if st.orelse:
+            raise Problem("for ... else (%s)" % where)
+        it = st.iter
+        if isinstance(it, (ast.Tuple, ast.List)):
+            # a loop over a literal tuple is unrolled: target = e1; body; target = e2; body; ...
+            new = []
+            for e in it.elts:
+                a = ast.Assign(targets=[st.target], value=e)
+                ast.copy_location(a, st)
+                ast.fix_missing_locations(a)
+                new.append(a)
+                new.extend(st.body)
+            return self.block(new + rest, env, k)
+        if isinstance(it, ast.Call) and isinstance(it.func, ast.Name) and it.func.id == "range" and "range" not in env \
+                and len(it.args) == 1 and not it.keywords:
+            b0, n0 = self.tx(it.args[0], env)
+            if not b0 and n0.kind == "S" and n0.intval is not None and 0 <= n0.intval <= 4:
+                new = []                        # range(c) with a small constant c is unrolled as well
+                for c in range(n0.intval):
+                    a = ast.Assign(targets=[st.target], value=ast.Constant(value=c))
+                    ast.copy_location(a, st)
+                    ast.fix_missing_locations(a)
+                    new.append(a)
+                    new.extend(st.body)
+                return self.block(new + rest, env, k)
+        binds, it_code, ek = self.iterable(it, env, where)
+        if isinstance(st.target, ast.Name):
+            tnames, tkinds, tpat = [st.target.id], [ek], lname(st.target.id)
+        elif isinstance(st.target, ast.Tuple) and all(isinstance(e, ast.Name) for e in st.target.elts) \
+                and is_tuple(ek) and len(ek[1]) == len(st.target.elts):
+            tnames, tkinds = [e.id for e in st.target.elts], list(ek[1])
+            tpat = "(" + ", ".join(lname(n) for n in tnames) + ")"
+        else:
+            raise Problem("loop target does not fit elements of kind %r (%s)" % (ek, where))
+        has_exit = contains_exit(st.body)
+        names = assigned_names(st.body, env)
+        if any(n in tnames for n in names):
+            raise Problem("the loop variable is re-bound in the loop (%s)" % where)
+        carried = [n for n in env if n in names]      # in the order of their definition before the loop
+        lost = [n for n in names if n not in carried] + [n for n in tnames if n != "_"]
+        kinds = {n: env[n].kind for n in carried}
+
+        def run_body(final):
+            envs = []
+
+            def kb(e):
+                envs.append(e)
+                if not final:
+                    return Yield("?")
+                cs = [self.coerce(e[n], kinds[n]) for n in carried]
+                code = "()" if not cs else cs[0] if len(cs) == 1 else "(" + ", ".join(cs) + ")"
+                return Next(code) if has_exit else Yield(code)
+            e0 = dict(env)
+            for n in carried:
+                e0[n] = Val(kinds[n], lname(n), inplace=env[n].inplace)
+                e0[n].unit, e0[n].wide = env[n].unit, env[n].wide
+            for n, kd in zip(tnames, tkinds):
+                if n != "_":
+                    e0[n] = Val(kd, lname(n))
+            return self.block(st.body, e0, kb), envs
+        keep = (self.ntmp, len(self.ret_kinds), len(self.plain_rets))
+        for _ in range(4):
+            _, envs = run_body(False)
+            self.ntmp = keep[0]
+            del self.ret_kinds[keep[1]:]
+            del self.plain_rets[keep[2]:]
+            new = dict(kinds)
+            for e in envs:
+                for n in carried:
+                    if n not in e:
+                        raise Problem("variable %s may be unbound after an iteration (%s)" % (n, where))
+                    new[n] = unify(new[n], e[n].kind)
+            if new == kinds:
+                break
+            kinds = new
+        else:
+            raise Problem("the kinds of the loop-carried variables do not settle (%s)" % where)
+        for n in carried:
+            if is_tuple(kinds[n]) or kinds[n] in ("none", "nan", "VB") or (is_list(kinds[n]) and kinds[n][1] is None):
+                raise Problem("loop-carried variable %s of kind %r (%s)" % (n, kinds[n], where))
+        body_ir, _ = run_body(True)
+        if not carried and not has_exit and not impure(body_ir):
+            raise Problem("loop without effect (%s)" % where)
+        env2 = dict(env)
+        for n in lost:
+            env2.pop(n, None)
+        for n in carried:
+            env2[n] = Val(kinds[n], lname(n), inplace=env[n].inplace)
+            env2[n].unit, env2[n].wide = env[n].unit, env[n].wide
+        inits = [self.coerce(env[n], kinds[n]) for n in carried]
+        if not carried:
+            spat, init, sty = "()", "()", "Unit"
+        elif len(carried) == 1:
+            spat, init, sty = lname(carried[0]), inits[0], lty(kinds[carried[0]])
+        else:
+            spat = "(" + ", ".join(lname(n) for n in carried) + ")"
+            init = "(" + ", ".join(inits) + ")"
+            sty = lty(("tuple", tuple(kinds[n] for n in carried)))
+        r, res = self.tmp(), self.tmp()
+        return wrap(binds, Loop(it_code, tpat, spat, init, sty, body_ir, self.block(rest, env2, k), has_exit, r, res))
+
+    def slice_assign(self, target, value, rest, env, k, where):
+        """`x[:] = e` for an array x created by np.empty: x is (re-)bound to e"""
+        sl = target.slice
+
+        def is_full(x):
+            return isinstance(x, ast.Slice) and x.lower is None and x.upper is None and x.step is None
+        full = is_full(sl)
+        if isinstance(target.value, ast.Name) and isinstance(self.prealloc.get(target.value.id), tuple) \
+                and isinstance(sl, ast.Tuple) and len(sl.elts) == 3 and is_full(sl.elts[0]):
+            return self.wide_assign(target.value.id, sl.elts[1], sl.elts[2], value, rest, env, k, where)
+        if not (isinstance(target.value, ast.Name) and full and target.value.id in self.prealloc):
+            raise Problem("assignment target %s (%s)" % (ast.unparse(target), where))
+        name = target.value.id
+        if name in env and not env[name].inplace:
+            raise Problem("slice assignment to %s (%s)" % (name, where))
+        binds, v = self.tx(value, env)
+        if v.kind != self.prealloc[name] or v.inplace:
+            raise Problem("`%s[:] = ...` with a value of kind %r (%s)" % (name, v.kind, where))
+        env2 = dict(env)
+        env2[name] = Val(v.kind, lname(name), inplace=True)
+        return wrap(binds, Let(lname(name), v.code, self.block(rest, env2, k)))
+
+    def dim_nat(self, v):
+        return self.as_nat(v) if self.natlike(v) else "Int.toNat %s" % atom(self.as_int(v))
+
+    def slice_bounds(self, binds, sl, env, where):
+        if not isinstance(sl, ast.Slice) or sl.step is not None:
+            raise Problem("slice %s (%s)" % (ast.unparse(sl), where))
+        out = []
+        for bnd in (sl.lower, sl.upper):
+            if bnd is None:
+                out.append("none")
+            else:
+                b2, bv = self.tx(bnd, env)
+                binds += b2
+                if not self.is_int(bv):
+                    raise Problem("slice bound of kind %r (%s)" % (bv.kind, where))
+                out.append("(some %s)" % atom(self.as_int(bv)))
+        return out
+
+    def wide_assign(self, name, mid, last, value, rest, env, k, where):
+        """assignments to an array `x = np.empty((d, 1, k))`:  `x[:, 0, :] = e` (all of it), `x[:, :, lo:hi] = e`"""
+        _, dv, kv = self.prealloc[name]
+        binds, v = self.tx(value, env)
+        if v.inplace and isinstance(value, ast.Name):
+            raise Problem("copy of an array that is updated in place (%s)" % where)
+        env2 = dict(env)
+        new = Val("MN", lname(name), inplace=True)
+        new.wide = True
+        env2[name] = new
+        mid_full = isinstance(mid, ast.Slice) and mid.lower is None and mid.upper is None and mid.step is None
+        last_full = isinstance(last, ast.Slice) and last.lower is None and last.upper is None and last.step is None
+        if not mid_full and last_full:
+            b2, mv = self.tx(mid, env)
+            if b2 or not (mv.kind == "S" and mv.intval == 0):
+                raise Problem("index %s into an axis of length 1 (%s)" % (ast.unparse(mid), where))
+            d, kk = atom(self.dim_nat(dv)), atom(self.dim_nat(kv))
+            if v.kind in ("S", "I", "N"):
+                v = self.as_scalar(binds, v, "array entry (%s)" % where)
+                return wrap(binds, Let(lname(name), "Rt.mfill %s %s %s" % (d, kk, atom(v.code)), self.block(rest, env2, k)))
+            if v.kind == "MN":
+                binds.append(("bind", lname(name), "Rt.asShape %s %s %s" % (d, kk, atom(v.code))))
+                return wrap(binds, self.block(rest, env2, k))
+            raise Problem("assignment of a value of kind %r to a 3-D array (%s)" % (v.kind, where))
+        if mid_full and not last_full:
+            if name not in env or not (env[name].wide and env[name].inplace) or v.kind != "MN":
+                raise Problem("partial assignment to %s (%s)" % (name, where))
+            lo, hi = self.slice_bounds(binds, last, env, where)
+            binds.append(("bind", lname(name), "Rt.setCols %s %s %s %s" % (lname(name), lo, hi, atom(v.code))))
+            return wrap(binds, self.block(rest, env2, k))
+        raise Problem("assignment target %s[...] (%s)" % (name, where))
+
     def assign(self, target, value, rest, env, k, where):
+        if isinstance(target, ast.Subscript):
+            return self.slice_assign(target, value, rest, env, k, where)
+        if isinstance(target, ast.Name) and self.np_empty_kind(value, env) is not None:
+            # np.empty(...): no value until the array is overwritten (`x[:] = ...`); reading it before is refused
+            pk = self.np_empty_kind(value, env)
+            self.prealloc[target.id] = pk
+            env2 = dict(env)
+            env2.pop(target.id, None)
+            ir = self.block(rest, env2, k)
+            if isinstance(pk, tuple):
+                for dim in (pk[2], pk[1]):          # a negative dimension: ValueError
+                    if not self.natlike(dim) and (dim.code, id(env.get(dim.code))) not in self.guarded:
+                        self.guarded.add((dim.code, id(env.get(dim.code))))
+                        ir = Ite("%s < 0" % atom(self.as_int(dim)), Fail("valueError"), ir)
+            return ir
         binds, v = self.tx(value, env)
         env2 = dict(env)
+        if isinstance(value, ast.Name) and (v.inplace or is_list(v.kind)):
+            raise Problem("a second name for a list / an array that is updated in place (%s)" % where)
         if isinstance(target, ast.Name):
             if v.kind in ("none", "nan") or v.kind == "VB":
                 raise Problem("assignment of a value of kind %r (%s)" % (v.kind, where))
@@ -743,7 +1346,12 @@ class FunctionTranslator:
                 # (rows / cells of a parameter are fresh names bound once at entry, so an alias may keep them)
                 is_param_struct = v.code in self.param_names
                 env2[target.id] = Val(v.kind, n, cells=v.cells if is_param_struct else None,
-                                      rows=v.rows if is_param_struct else None)
+                                      rows=v.rows if is_param_struct else None,
+                                      inplace=v.owned or getattr(self, "aug_owner", None) == target.id)
+                env2[target.id].unit = v.unit and v.kind == "S"
+                env2[target.id].intval = v.intval if v.kind == "S" else None
+                env2[target.id].wide = v.wide and is_param_struct
+                self.aug_owner = None
             if binds and binds[-1][0] == "bind" and binds[-1][1] == v.code:
                 binds = binds[:-1] + [("bind", n, binds[-1][2])]
                 return wrap(binds, self.block(rest, env2, k))
@@ -762,12 +1370,14 @@ class FunctionTranslator:
                 raise Problem("unpacking a value of kind %r (%s)" % (v.kind, where))
             if len(kinds) != len(names):
                 raise Problem("unpacking %d values into %d names (%s)" % (len(kinds), len(names), where))
-            for n, kd in zip(names, kinds):
+            for i, (n, kd) in enumerate(zip(names, kinds)):
                 if n != "_":
                     if kd in ("none", "nan"):
                         raise Problem("unpacked position is always None (%s)" % where)
-                    env2[n] = Val(kd, lname(n))
-            pat = "(" + ", ".join(lname(n) for n in names) + ")"
+                    env2[n] = Val(kd, lname(n), intval=v.comps[i].intval if v.comps and isinstance(v.comps[i], Val) else None)
+            pat = "(" + ", ".join(lname(n) for n in names) + ")" if len(names) > 1 else lname(names[0])
+            if len(names) == 1 and v.comps:
+                v = v.comps[0]
             if binds and binds[-1][0] == "bind" and binds[-1][1] == v.code:
                 binds = binds[:-1] + [("bind", pat, binds[-1][2])]
                 return wrap(binds, self.block(rest, env2, k))
@@ -823,10 +1433,70 @@ class FunctionTranslator:
                     return self.const_eval(other.consts[node.attr], other, depth + 1)
         return None
 
+    def const_int(self, node, mod=None, depth=0):
+        """value of an integer-typed constant expression (Python int arithmetic), or None"""
+        mod = mod or self.mod
+        if depth > 8:
+            return None
+        if isinstance(node, ast.Constant):
+            return node.value if isinstance(node.value, int) and not isinstance(node.value, bool) else None
+        if isinstance(node, ast.UnaryOp) and isinstance(node.op, ast.USub):
+            v = self.const_int(node.operand, mod, depth + 1)
+            return None if v is None else -v
+        if isinstance(node, ast.BinOp) and isinstance(node.op, (ast.Add, ast.Sub, ast.Mult)):
+            a = self.const_int(node.left, mod, depth + 1)
+            b = self.const_int(node.right, mod, depth + 1)
+            if a is None or b is None:
+                return None
+            return a + b if isinstance(node.op, ast.Add) else a - b if isinstance(node.op, ast.Sub) else a * b
+        if isinstance(node, ast.Name) and node.id in mod.consts and (mod is not self.mod or node.id not in self.locals_):
+            return self.const_int(mod.consts[node.id], mod, depth + 1)
+        return None
+
+    # Python ints: kind N (a natural number: a length, a shape entry, a range index) or I (any int); an
+    # integer-typed constant is a number literal that remembers its value
+    @staticmethod
+    def is_int(v):
+        return v.kind in ("I", "N") or (v.kind == "S" and v.intval is not None)
+
+    @staticmethod
+    def natlike(v):
+        return v.kind == "N" or (v.kind == "S" and v.intval is not None and v.intval >= 0)
+
+    @staticmethod
+    def as_int(v):
+        if v.kind == "I":
+            return v.code
+        if v.kind == "N":
+            return "(%s : Int)" % v.code
+        return "(%d : Int)" % v.intval
+
+    @staticmethod
+    def as_nat(v):
+        return v.code if v.kind == "N" else "(%d : Nat)" % v.intval
+
+    def as_scalar(self, binds, v, what):
+        """a number of K (ints are converted as Python does in mixed arithmetic)"""
+        if v.kind == "I":
+            return Val("S", "Rt.ofInt %s" % atom(v.code))
+        if v.kind == "N":
+            return Val("S", "((%s : Nat) : K)" % v.code)
+        return self.need(binds, v, "S", what)
+
     def need(self, binds, v, kind, what):
         """convert v to `kind` (unwrapping a maybe-None value raises)"""
         if v.kind == kind:
             return v
+        if kind == "S" and v.kind in ("I", "N"):
+            return self.as_scalar(binds, v, what)
+        if kind == "I" and self.is_int(v):
+            return Val("I", self.as_int(v))
+        if kind == "N" and self.natlike(v):
+            return Val("N", self.as_nat(v))
+        if kind == "X" and v.kind == "S":
+            return Val("X", "Rt.Ext.fin %s" % atom(v.code))
+        if is_list(kind) and is_list(v.kind) and v.kind[1] is None:
+            return Val(kind, "(%s : %s)" % (v.code, lty(kind)))
         if is_opt(v.kind) and v.kind[1] == kind:
             if v.kind[2] != "none":
                 raise Problem("a maybe-NaN value is used as a number (%s)" % what)
@@ -840,7 +1510,7 @@ class FunctionTranslator:
         if not (isinstance(node, ast.Name) and node.id in env):
             c = self.const_eval(node)
             if c is not None:
-                return [], Val("S", lit(c))
+                return [], Val("S", lit(c), intval=self.const_int(node))
         if isinstance(node, ast.Constant):
             if node.value is None:
                 return [], Val("none", "none")
@@ -852,9 +1522,22 @@ class FunctionTranslator:
                 return [], env[node.id]
             raise Problem("name %s is not a parameter, a (definitely assigned) local or a numeric module constant (%s)"
                           % (node.id, where))
+        if isinstance(node, ast.List):
+            if not node.elts:
+                return [], Val(("list", None), "[]")
+            binds, cs = [], []
+            for e in node.elts:
+                b, v = self.tx(e, env)
+                binds += b
+                cs.append(self.as_scalar(binds, v, "entry of a list of numbers (%s)" % where).code)
+            return binds, Val("V", "[" + ", ".join(cs) + "]")
         if isinstance(node, ast.Attribute):
+            if not (isinstance(node.value, ast.Name) and node.value.id not in env):
+                return self.attribute(node, env, where)
             if isinstance(node.value, ast.Name) and node.value.id not in env:
                 base = node.value.id
+                if self.mod.aliases.get(base) == "numpy" and node.attr == "inf":
+                    return [], Val("X", "(Rt.Ext.pinf : Rt.Ext K)")
                 if self.mod.aliases.get(base) == "numpy" and node.attr == "nan":
                     return [], Val("nan", "none")
                 if base in self.mod.classes and node.attr in self.mod.classes[base]:
@@ -867,15 +1550,23 @@ class FunctionTranslator:
             for e in node.elts:
                 b, v = self.tx(e, env)
                 binds += b
+                if v.inplace or is_list(v.kind):
+                    raise Problem("a list / an array overwritten in place inside a tuple (%s)" % where)
                 comps.append(v)
             return binds, Val(("tuple", tuple(c.kind for c in comps)),
                               "(" + ", ".join(c.code for c in comps) + ")", comps=comps)
         if isinstance(node, ast.UnaryOp):
             binds, v = self.tx(node.operand, env)
             if isinstance(node.op, ast.USub):
+                if v.kind == "X":
+                    return binds, Val("X", "Rt.Ext.neg %s" % atom(v.code))
+                if v.kind in ("I", "N"):
+                    return binds, Val("I", "-%s" % atom(self.as_int(v)))
                 v = self.need(binds, v, "S", "operand of unary - (%s)" % where)
                 return binds, Val("S", "-%s" % atom(v.code))
             if isinstance(node.op, ast.Not):
+                if is_list(v.kind):
+                    return binds, Val("B", "List.isEmpty %s" % atom(v.code))
                 if v.kind != "B":
                     raise Problem("`not` of kind %r (%s)" % (v.kind, where))
                 return binds, Val("B", "!%s" % atom(v.code), prop=("¬ %s" % atom(v.prop)) if v.prop else None)
@@ -894,9 +1585,38 @@ class FunctionTranslator:
                 t = self.tmp()
                 binds.append(("bind", t, "Rt.vzip (fun x y => x - y) %s %s" % (atom(a.code), atom(b.code))))
                 return binds, Val("V", t)
-            a = self.need(binds, a, "S", "left operand of %s (%s)" % (op, where))
-            b = self.need(binds, b, "S", "right operand of %s (%s)" % (op, where))
-            return binds, Val("S", "%s %s %s" % (atom(a.code), op, atom(b.code)))
+            if a.kind == "C" and b.kind == "C" and op in "+-":
+                t = self.tmp()
+                binds.append(("bind", t, "Rt.vzip (fun x y => x %s y) %s %s" % (op, atom(a.code), atom(b.code))))
+                return binds, Val("C", t)
+            if op == "*" and b.kind == "C" and a.kind in ("S", "I", "N"):
+                a = self.as_scalar(binds, a, "factor of an array (%s)" % where)
+                return binds, Val("C", "List.map (fun x => %s * x) %s" % (atom(a.code), atom(b.code)))
+            if op in "*/" and a.kind == "C" and b.kind in ("S", "I", "N"):
+                b = self.as_scalar(binds, b, "factor of an array (%s)" % where)
+                return binds, Val("C", "List.map (fun x => x %s %s) %s" % (op, atom(b.code), atom(a.code)))
+            if a.kind == "MN" and b.kind == "MN" and op in "+-*":
+                t = self.tmp()
+                binds.append(("bind", t, "Rt.mzip (fun x y => x %s y) %s %s" % (op, atom(a.code), atom(b.code))))
+                r = Val("MN", t)
+                r.wide = a.wide and b.wide
+                return binds, r
+            if op == "*" and b.kind == "MN" and a.kind in ("S", "I", "N"):
+                a = self.as_scalar(binds, a, "factor of an array (%s)" % where)
+                return binds, Val("MN", "Rt.mmap (fun x => %s * x) %s" % (atom(a.code), atom(b.code)))
+            if op in "*/" and a.kind == "MN" and b.kind in ("S", "I", "N"):
+                b = self.as_scalar(binds, b, "factor of an array (%s)" % where)
+                return binds, Val("MN", "Rt.mmap (fun x => x %s %s) %s" % (op, atom(b.code), atom(a.code)))
+            if self.is_int(a) and self.is_int(b) and op != "/":
+                if op in "+*" and self.natlike(a) and self.natlike(b):
+                    return binds, Val("N", "%s %s %s" % (atom(self.as_nat(a)), op, atom(self.as_nat(b))))
+                return binds, Val("I", "%s %s %s" % (atom(self.as_int(a)), op, atom(self.as_int(b))))
+            unit = a.unit or b.unit            # scalar (op) one-entry array = one-entry array
+            a = self.as_scalar(binds, a, "left operand of %s (%s)" % (op, where))
+            b = self.as_scalar(binds, b, "right operand of %s (%s)" % (op, where))
+            r = Val("S", "%s %s %s" % (atom(a.code), op, atom(b.code)))
+            r.unit = unit
+            return binds, r
         if isinstance(node, ast.Compare):
             return self.compare(node, env, where)
         if isinstance(node, ast.BoolOp):
@@ -906,6 +1626,60 @@ class FunctionTranslator:
         if isinstance(node, ast.Call):
             return self.call(node, env, where)
         raise Problem("expression %s (%s)" % (type(node).__name__, where))
+
+    SUB_FIELDS = {"start": ("S", "start"), "end": ("S", "stop"), "nodes": ("MN", "nodes")}
+
+    def shape_of(self, binds, v, where):
+        """`.shape` / `np.shape(.)`: a tuple of natural numbers (the rows of a 2-D array must have equal lengths)"""
+        if v.kind == "M2N" and v.rows is not None:
+            self.struct_used |= set(v.rows)
+            t = self.tmp()
+            binds.append(("bind", t, "Rt.shape2 %s %s" % (v.rows[0], v.rows[1])))
+            comps = [Val("N", "(2 : Nat)"), Val("N", t)]
+        elif v.kind == "MN":
+            t = self.tmp()
+            binds.append(("bind", t, "Rt.shape %s" % atom(v.code)))
+            comps = [Val("N", "%s.1" % t), Val("N", "%s.2" % t)]
+        elif v.kind == "S" and v.unit:
+            comps = [Val("S", lit(1), intval=1)]
+        elif v.kind == "V":
+            comps = [Val("N", "List.length %s" % atom(v.code))]
+        else:
+            raise Problem("shape of a value of kind %r (%s)" % (v.kind, where))
+        return Val(("tuple", tuple(c.kind for c in comps)), "(" + ", ".join(c.code for c in comps) + ")", comps=comps)
+
+    def attribute(self, node, env, where):
+        binds, base = self.tx(node.value, env)
+        if node.attr == "shape":
+            return binds, self.shape_of(binds, base, where)
+        if base.kind == "MN" and node.attr == "T":
+            return binds, Val("MN", "Model.transpose %s" % atom(base.code))
+        if base.kind == "SUB" and node.attr in self.SUB_FIELDS:
+            kd, field = self.SUB_FIELDS[node.attr]
+            return binds, Val(kd, "%s.%s" % (atom(base.code), field))
+        raise Problem("attribute %s of a value of kind %r (%s)" % (node.attr, base.kind, where))
+
+    def np_empty_kind(self, node, env=None):
+        """`np.empty((2,), order="F")` -> "P" (the kind of the array once it is filled);
+        `np.empty((d, 1, k), order="F")` -> ("W", d, k)"""
+        if not (isinstance(node, ast.Call) and isinstance(node.func, ast.Attribute) and node.func.attr == "empty"
+                and isinstance(node.func.value, ast.Name) and self.mod.aliases.get(node.func.value.id) == "numpy"):
+            return None
+        kw = {k.arg: k.value for k in node.keywords}
+        if len(node.args) == 1 and set(kw) <= {"order"} and isinstance(node.args[0], ast.Tuple) \
+                and len(node.args[0].elts) == 1 and self.const_int(node.args[0].elts[0]) == 2:
+            return "P"
+        if len(node.args) == 1 and set(kw) <= {"order"} and isinstance(node.args[0], ast.Tuple) \
+                and len(node.args[0].elts) == 3 and env is not None:
+            vals = []
+            for e in node.args[0].elts:
+                b, v = self.tx(e, env)
+                if b or not self.is_int(v):
+                    raise Problem("np.empty with this shape (line %d)" % node.lineno)
+                vals.append(v)
+            if vals[1].kind == "S" and vals[1].intval == 1:
+                return ("W", vals[0], vals[2])
+        raise Problem("np.empty with this shape (line %d)" % node.lineno)
 
     def compare(self, node, env, where):
         binds = []
@@ -922,7 +1696,25 @@ class FunctionTranslator:
             t = self.tmp()
             binds.append(("bind", t, "Rt.vzip (fun x y => decide (x ≤ y)) %s %s" % (atom(vals[0].code), atom(vals[1].code))))
             return binds, Val("VB", t)
-        vals = [self.need(binds, v, "S", "operand of a comparison (%s)" % where) for v in vals]
+        if any(v.kind == "X" for v in vals):
+            codes = []
+            for op, a, b in zip(node.ops, vals, vals[1:]):
+                x = atom(self.need(binds, a, "X", "operand of a comparison (%s)" % where).code)
+                y = atom(self.need(binds, b, "X", "operand of a comparison (%s)" % where).code)
+                if isinstance(op, ast.Lt):
+                    codes.append("Rt.Ext.lt %s %s" % (x, y))
+                elif isinstance(op, ast.Gt):
+                    codes.append("Rt.Ext.lt %s %s" % (y, x))
+                else:
+                    raise Problem("comparison other than < / > with a possibly infinite operand (%s)" % where)
+            return binds, Val("B", " && ".join(atom(c) if len(codes) > 1 else c for c in codes))
+        if all(self.is_int(v) for v in vals):
+            if all(self.natlike(v) for v in vals):
+                vals = [Val("N", self.as_nat(v)) for v in vals]
+            else:
+                vals = [Val("I", self.as_int(v)) for v in vals]
+        else:
+            vals = [self.as_scalar(binds, v, "operand of a comparison (%s)" % where) for v in vals]
         props = []
         for op, a, b in zip(node.ops, vals, vals[1:]):
             x, y = atom(a.code), atom(b.code)
@@ -980,6 +1772,12 @@ class FunctionTranslator:
             return -node.operand.value
         raise Problem("non-constant index (%s)" % where)
 
+    def const_index_opt(self, node):
+        try:
+            return self.const_index(node, "")
+        except Problem:
+            return None
+
     def row_read(self, binds, row, j, where):
         t = self.tmp()
         if j >= 0:
@@ -1000,6 +1798,117 @@ class FunctionTranslator:
             if base.comps is not None:
                 return binds, Val("S", base.comps[i])
             return binds, Val("S", "%s.%d" % (atom(base.code), i + 1))
+        if base.kind == "MN" and base.wide:
+            if not (isinstance(sl, ast.Tuple) and len(sl.elts) == 3 and all(
+                    isinstance(x, ast.Slice) and x.lower is None and x.upper is None and x.step is None for x in sl.elts[:2])):
+                raise Problem("subscript %s of a 3-D array (%s)" % (ast.unparse(node), where))
+            last = sl.elts[2]
+            if isinstance(last, ast.Slice):
+                lo, hi = self.slice_bounds(binds, last, env, where)
+                r = Val("MN", "Rt.cols %s %s %s" % (atom(base.code), lo, hi))
+                r.wide = True
+                return binds, r
+            j = self.const_index(last, where)
+            if j < 0:
+                raise Problem("negative index %d (%s)" % (j, where))
+            t = self.tmp()
+            binds.append(("bind", t, "List.mapM (fun r => Rt.idx r %d) %s" % (j, atom(base.code))))
+            return binds, Val("C", t)
+        if base.kind == "S" and base.unit and not isinstance(sl, ast.Tuple):
+            b2, iv = self.tx(sl, env)
+            if not b2 and iv.kind == "S" and iv.intval == 0:
+                return binds, base                   # the only entry
+            raise Problem("subscript %s of a one-entry array (%s)" % (ast.unparse(node), where))
+        if base.kind == "S" and base.unit:
+            # a one-entry array: `x[np.newaxis, :]` is again a one-entry array
+            if isinstance(sl, ast.Tuple) and len(sl.elts) == 2 and isinstance(sl.elts[1], ast.Slice) \
+                    and sl.elts[1].lower is None and sl.elts[1].upper is None and sl.elts[1].step is None \
+                    and isinstance(sl.elts[0], ast.Attribute) and sl.elts[0].attr == "newaxis" \
+                    and isinstance(sl.elts[0].value, ast.Name) and self.mod.aliases.get(sl.elts[0].value.id) == "numpy":
+                return binds, base
+            raise Problem("subscript %s of a one-entry array (%s)" % (ast.unparse(node), where))
+        if base.kind == "C" and isinstance(sl, ast.Tuple) and len(sl.elts) == 2:
+            first, second = sl.elts
+            if isinstance(first, ast.Slice) and first.lower is None and first.upper is None and first.step is None \
+                    and self.const_index_opt(second) == 0:
+                return binds, Val("V", base.code)
+            raise Problem("subscript %s of a d x 1 array (%s)" % (ast.unparse(node), where))
+        if base.kind == "MN" and isinstance(sl, ast.Tuple) and len(sl.elts) == 2 and isinstance(sl.elts[1], ast.List) \
+                and len(sl.elts[1].elts) == 1:
+            first = sl.elts[0]
+            if not (isinstance(first, ast.Slice) and first.lower is None and first.upper is None and first.step is None):
+                raise Problem("subscript %s (%s)" % (ast.unparse(node), where))
+            b2, jv = self.tx(sl.elts[1].elts[0], env)
+            binds += b2
+            if not self.is_int(jv):
+                raise Problem("column index of kind %r (%s)" % (jv.kind, where))
+            t = self.tmp()
+            if self.natlike(jv):
+                binds.append(("bind", t, "List.mapM (fun r => Rt.idx r %s) %s" % (atom(self.as_nat(jv)), atom(base.code))))
+            else:
+                binds.append(("bind", t, "List.mapM (fun r => Rt.idxI r %s) %s" % (atom(self.as_int(jv)), atom(base.code))))
+            return binds, Val("C", t)
+        if is_tuple(base.kind):
+            i = self.const_index(sl, where)
+            n = len(base.kind[1])
+            if not 0 <= i < n:
+                raise Problem("index %d into a tuple of %d (%s)" % (i, n, where))
+            if base.comps is not None:
+                return binds, base.comps[i]
+            proj = ".2" * i + (".1" if i < n - 1 else "")
+            return binds, Val(base.kind[1][i], atom(base.code) + proj)
+        if is_list(base.kind) and base.kind[1] is not None:
+            b2, iv = self.tx(sl, env)
+            binds += b2
+            if not self.natlike(iv):
+                raise Problem("index of kind %r into a list (%s)" % (iv.kind, where))
+            t = self.tmp()
+            binds.append(("bind", t, "Rt.lidx %s %s" % (atom(base.code), atom(self.as_nat(iv)))))
+            return binds, Val(base.kind[1], t)
+        if base.kind == "MN" and isinstance(sl, ast.Tuple) and len(sl.elts) == 2 and isinstance(sl.elts[1], ast.Slice):
+            first, second = sl.elts
+            if not (isinstance(first, ast.Slice) and first.lower is None and first.upper is None and first.step is None) \
+                    or second.step is not None:
+                raise Problem("subscript %s (%s)" % (ast.unparse(node), where))
+            bounds = []
+            for bnd in (second.lower, second.upper):
+                if bnd is None:
+                    bounds.append("none")
+                else:
+                    b2, bv = self.tx(bnd, env)
+                    binds += b2
+                    if not self.is_int(bv):
+                        raise Problem("slice bound of kind %r (%s)" % (bv.kind, where))
+                    bounds.append("(some %s)" % atom(self.as_int(bv)))
+            return binds, Val("MN", "Rt.cols %s %s %s" % (atom(base.code), bounds[0], bounds[1]))
+        if base.kind == "MN" and isinstance(sl, ast.Tuple) and len(sl.elts) == 2:
+            first, second = sl.elts
+            full = isinstance(first, ast.Slice) and first.lower is None and first.upper is None and first.step is None
+            if full and not isinstance(second, ast.Slice):
+                j = self.const_index(second, where)
+                t = self.tmp()
+                if j >= 0:
+                    binds.append(("bind", t, "List.mapM (fun r => Rt.idx r %d) %s" % (j, atom(base.code))))
+                elif j == -1:
+                    binds.append(("bind", t, "List.mapM Rt.idxLast %s" % atom(base.code)))
+                else:
+                    raise Problem("negative index %d (%s)" % (j, where))
+                return binds, Val("V", t)
+        if base.kind == "M2N" and isinstance(sl, ast.Tuple) and len(sl.elts) == 2 and base.rows is not None \
+                and isinstance(sl.elts[0], ast.Slice) and self.const_index_opt(sl.elts[1]) is None \
+                and not isinstance(sl.elts[1], ast.Slice):
+            first, second = sl.elts
+            if not (first.lower is None and first.upper is None and first.step is None):
+                raise Problem("subscript %s (%s)" % (ast.unparse(node), where))
+            b2, jv = self.tx(second, env)
+            binds += b2
+            if not self.is_int(jv):
+                raise Problem("column index of kind %r (%s)" % (jv.kind, where))
+            self.struct_used |= set(base.rows)
+            a, b = self.tmp(), self.tmp()
+            prim = ("Rt.idx %s " + atom(jv.code)) if jv.kind == "N" else ("Rt.idxI %s " + atom(self.as_int(jv)))
+            binds += [("bind", a, prim % base.rows[0]), ("bind", b, prim % base.rows[1])]
+            return binds, Val("P", "(%s, %s)" % (a, b), comps=[a, b])
         if base.kind in ("M22", "M2N") and isinstance(sl, ast.Tuple) and len(sl.elts) == 2:
             first, second = sl.elts
             full = isinstance(first, ast.Slice) and first.lower is None and first.upper is None and first.step is None
@@ -1032,13 +1941,13 @@ class FunctionTranslator:
         raise Problem("subscript %s of a value of kind %r (%s)" % (ast.unparse(node), base.kind, where))
 
     # -------------------------------------------------------------- calls
-    def call(self, node, env, where):
+    def call(self, node, env, where, stmt=False):
         f = node.func
         target = None          # ("fn", module, name) | ("np", dotted) | ("builtin", name)
         if isinstance(f, ast.Name) and f.id not in env:
             if f.id in self.mod.funcs:
                 target = ("fn", self.modname, f.id)
-            elif f.id in ("abs", "min", "max"):
+            elif f.id in ("abs", "min", "max", "len", "float"):
                 target = ("builtin", f.id)
         elif isinstance(f, ast.Attribute):
             chain = []
@@ -1051,40 +1960,90 @@ class FunctionTranslator:
                 al = self.mod.aliases.get(cur.id)
                 if al == "numpy":
                     target = ("np", ".".join(chain))
+                elif al == "bisect":
+                    target = ("bisect", ".".join(chain))
                 elif al is not None and len(chain) == 1:
                     target = ("fn", al, chain[0])
         if target is None:
             raise Problem("call of %s (%s)" % (ast.unparse(f), where))
         if target[0] == "fn":
-            return self.fn_call(node, target[1], target[2], env, where)
+            return self.fn_call(node, target[1], target[2], env, where, stmt)
+        if stmt:
+            raise Problem("call whose result is discarded (%s)" % where)
         return self.prim_call(node, target, env, where)
 
-    def fn_call(self, node, mod, fn, env, where):
+    def use_extra(self, x):
+        if x not in self.extra:
+            self.extra.append(x)
+            self.extra.sort(key=lambda y: (y != "sqrt", y))
+
+    def abstract_call(self, node, mod, fn, env, where):
+        kinds, ret = ABSTRACT[(mod, fn)]
+        if node.keywords or len(node.args) != len(kinds):
+            raise Problem("call of %s with this argument list (%s)" % (fn, where))
+        binds, args = [], []
+        for a, kd in zip(node.args, kinds):
+            b, v = self.tx(a, env)
+            binds += b
+            want = "S" if kd == "S1" else kd
+            if kd == "S1" and not v.unit:
+                raise Problem("argument of %s must be a one-entry array (%s)" % (fn, where))
+            if v.kind != want:
+                raise Problem("argument of %s: kind %r where %r is required (%s)" % (fn, v.kind, kd, where))
+            args.append(atom(v.code))
+        self.use_extra((mod, fn))
+        t = self.tmp()
+        binds.append(("bind", t, "%s %s" % (fn, " ".join(args))))
+        return binds, Val(ret, t)
+
+    def fn_call(self, node, mod, fn, env, where, stmt=False):
+        if (mod, fn) in ABSTRACT and not stmt:
+            return self.abstract_call(node, mod, fn, env, where)
         if (mod, fn) not in self.tr.sigs:
             raise Problem("call of %s.%s, which is not in the signature table (%s)" % (mod, fn, where))
         callee = self.tr.function(mod, fn)
         if callee is None:
             raise Problem("call of %s, which could not be translated (%s)" % (fn, where))
-        if node.keywords or len(node.args) != len(callee.kinds) or any(isinstance(a, ast.Starred) for a in node.args):
-            raise Problem("call of %s with keyword / default / starred arguments (%s)" % (fn, where))
-        binds, args = [], []
-        for a, kd, pn in zip(node.args, callee.kinds, callee.params):
+        missing = callee.params[len(node.args):]
+        if node.keywords or len(node.args) > len(callee.kinds) or any(isinstance(a, ast.Starred) for a in node.args) \
+                or any(p not in callee.defaults for p in missing):
+            raise Problem("call of %s with keyword / starred / missing arguments (%s)" % (fn, where))
+        if callee.mut and not stmt:
+            raise Problem("call of %s, which updates a list argument in place, inside an expression (%s)" % (fn, where))
+        if stmt and not (callee.mut and callee.ret_none):
+            raise Problem("call of %s whose result is discarded (%s)" % (fn, where))
+        binds, args, muts = [], [], []
+        for i, (a, kd, pn) in enumerate(zip(node.args, callee.kinds, callee.params)):
             b, v = self.tx(a, env)
             binds += b
-            if kd in ("M22", "M2N", "MN"):
+            if i in callee.mut:
+                if not (isinstance(a, ast.Name) and is_list(v.kind)) or a.id in self.ro_lists or \
+                        any(n == a.id for n, _ in muts):
+                    raise Problem("argument %s of %s is updated in place: it must be a list variable that this function "
+                                  "may change (%s)" % (pn, fn, where))
+                muts.append((a.id, ("list", kd[1])))
+                v = self.need(binds, v, ("list", kd[1]), "argument %s of %s (%s)" % (pn, fn, where))
+            elif kd == "S1":
+                if not (v.kind == "S" and v.unit):
+                    raise Problem("argument %s of %s must be a one-entry array (%s)" % (pn, fn, where))
+            elif kd in ("M22", "M2N", "MN", "SUB", "C"):
                 if v.kind != kd:
                     raise Problem("argument %s of %s: kind %r where %r is required (%s)" % (pn, fn, v.kind, kd, where))
             else:
                 v = self.need(binds, v, kd, "argument %s of %s (%s)" % (pn, fn, where))
             args.append(atom(v.code))
-        if callee.uses_sqrt:
-            self.uses_sqrt = True
-            args.insert(0, "sqrt")
+        for pn in missing:
+            args.append(lit(callee.defaults[pn]))
+        for x in callee.uses_sqrt:
+            self.use_extra(x)
+        args = [x if x == "sqrt" else x[1] for x in callee.uses_sqrt] + args
         code = "%s %s" % (fn, " ".join(args))
         if callee.monadic:
             t = self.tmp()
             binds.append(("bind", t, code))
-            return binds, Val(callee.ret, t)
+            code = t
+        if stmt:
+            return binds, Val(callee.ret, code), muts
         return binds, Val(callee.ret, code)
 
     def prim_call(self, node, target, env, where):
@@ -1097,7 +2056,7 @@ class FunctionTranslator:
             return key in kw and isinstance(kw[key], ast.Constant) and kw[key].value == value and \
                 type(kw[key].value) is type(value)
         if target[0] == "np" and name in ("asfortranarray", "array") and len(node.args) == 1 and not kw \
-                and isinstance(node.args[0], ast.List):
+                and isinstance(node.args[0], ast.List) and len(node.args[0].elts) != 1:
             elts = node.args[0].elts
             binds = []
             if len(elts) == 2 and all(isinstance(e, ast.List) and len(e.elts) == 2 for e in elts):
@@ -1132,14 +2091,69 @@ class FunctionTranslator:
                 binds.append(("bind", t, "List.mapM %s %s" % (prim, atom(v.code))))
                 return binds, Val("V", t)
             raise Problem("np.%s(axis=1) of a value of kind %r (%s)" % (name, v.kind, where))
+        if target[0] == "np" and name in ("asfortranarray", "array") and len(node.args) == 1 and not kw \
+                and isinstance(node.args[0], ast.List) and len(node.args[0].elts) == 1 \
+                and not isinstance(node.args[0].elts[0], (ast.List, ast.Tuple, ast.Starred)):
+            binds, v = self.tx(node.args[0].elts[0], env)
+            v = self.as_scalar(binds, v, "array entry (%s)" % where)
+            r = Val("S", v.code)
+            r.unit = True
+            return binds, r
+        if target[0] == "np" and name in ("zeros", "ones") and len(node.args) == 1 and set(kw) <= {"order"} \
+                and isinstance(node.args[0], ast.Tuple) and len(node.args[0].elts) == 2:
+            binds, d0 = self.tx(node.args[0].elts[0], env)
+            b2, d1 = self.tx(node.args[0].elts[1], env)
+            binds += b2
+            if d1.kind == "S" and d1.intval == 1 and name == "zeros" and self.natlike(d0):
+                r = Val("C", "List.replicate %s (0 : K)" % atom(self.as_nat(d0)))
+                r.owned = True
+                return binds, r
+            if d1.kind == "S" and d1.intval == 1 and d0.kind == "S" and d0.intval == 1 and name == "ones":
+                r = Val("S", "(1 : K)")
+                r.unit = True
+                return binds, r
+            raise Problem("np.%s with this shape (%s)" % (name, where))
+        if target[0] == "np" and name in ("asfortranarray", "array") and len(node.args) == 1 and not kw \
+                and not isinstance(node.args[0], ast.List):
+            binds, v = self.tx(node.args[0], env)
+            if v.kind != "MN" or isinstance(node.args[0], ast.Name):
+                raise Problem("np.%s of a value of kind %r / of a variable (a possible alias) (%s)" % (name, v.kind, where))
+            return binds, v
         if ((target[0] == "np" and name in ("abs", "absolute")) or target == ("builtin", "abs")) and len(node.args) == 1 and not kw:
             binds, v = self.tx(node.args[0], env)
+            if v.kind == "MN" and target[0] == "np":
+                return binds, Val("MN", "Rt.mmap Model.absK %s" % atom(v.code))
             v = self.need(binds, v, "S", "argument of abs (%s)" % where)
             return binds, Val("S", "Model.absK %s" % atom(v.code))
+        if target == ("bisect", "bisect_left") and len(node.args) == 2 and not kw:
+            # the standard-library routine, as transcribed in Model.bisectLeft (lo = 0, hi = len, fuel = len + 1)
+            binds, a = self.tx(node.args[0], env)
+            b2, b = self.tx(node.args[1], env)
+            binds += b2
+            if a.kind != ("list", "N") or not self.natlike(b):
+                raise Problem("bisect_left of kinds %r, %r (%s)" % (a.kind, b.kind, where))
+            la = atom(a.code)
+            return binds, Val("N", "Model.bisectLeft %s %s (List.length %s + 1) 0 (List.length %s)"
+                              % (la, atom(self.as_nat(b)), la, la))
+        if target == ("builtin", "len") and len(node.args) == 1 and not kw:
+            binds, v = self.tx(node.args[0], env)
+            if not (is_list(v.kind) or v.kind == "V"):
+                raise Problem("len of a value of kind %r (%s)" % (v.kind, where))
+            return binds, Val("N", "List.length %s" % atom(v.code))
+        if target == ("builtin", "float") and len(node.args) == 1 and not kw:
+            binds, v = self.tx(node.args[0], env)
+            return binds, self.as_scalar(binds, v, "argument of float (%s)" % where)
+        if target == ("np", "shape") and len(node.args) == 1 and not kw:
+            binds, v = self.tx(node.args[0], env)
+            return binds, self.shape_of(binds, v, where)
         if target[0] == "builtin" and name in ("min", "max") and len(node.args) == 2 and not kw:
             binds, a = self.tx(node.args[0], env)
             b2, b = self.tx(node.args[1], env)
             binds += b2
+            if a.kind == "X" or b.kind == "X":
+                a = self.need(binds, a, "X", "argument of %s (%s)" % (name, where))
+                b = self.need(binds, b, "X", "argument of %s (%s)" % (name, where))
+                return binds, Val("X", "Rt.Ext.%s %s %s" % (name, atom(a.code), atom(b.code)))
             a = self.need(binds, a, "S", "argument of %s (%s)" % (name, where))
             b = self.need(binds, b, "S", "argument of %s (%s)" % (name, where))
             return binds, Val("S", "Model.%sK %s %s" % (name, atom(a.code), atom(b.code)))
@@ -1147,9 +2161,20 @@ class FunctionTranslator:
             binds, a = self.tx(node.args[0], env)
             b2, b = self.tx(node.args[1], env)
             binds += b2
+            if a.kind == "V" and b.kind == "V":
+                return binds, Val("S", "Model.dot %s %s" % (atom(a.code), atom(b.code)))
             if a.kind != "P" or b.kind != "P":
                 raise Problem("np.vdot of kinds %r, %r (%s)" % (a.kind, b.kind, where))
             return binds, Val("S", "Model.dot2 %s %s" % (atom(a.code), atom(b.code)))
+        if target[0] == "np" and name == "dot" and len(node.args) == 2 and not kw:
+            binds, a = self.tx(node.args[0], env)
+            b2, b = self.tx(node.args[1], env)
+            binds += b2
+            if a.kind != "MN" or b.kind != "MN":
+                raise Problem("np.dot of kinds %r, %r (%s)" % (a.kind, b.kind, where))
+            t = self.tmp()
+            binds.append(("bind", t, "Rt.npDot %s %s" % (atom(a.code), atom(b.code))))
+            return binds, Val("MN", t)
         if target[0] == "np" and name == "all" and len(node.args) == 1 and not kw:
             binds, v = self.tx(node.args[0], env)
             if v.kind != "VB":
@@ -1159,20 +2184,21 @@ class FunctionTranslator:
             binds, v = self.tx(node.args[0], env)
             if v.kind != "V":
                 raise Problem("np.linalg.norm of kind %r (%s)" % (v.kind, where))
-            self.uses_sqrt = True
+            self.use_extra("sqrt")
             return binds, Val("S", "sqrt (Model.normSq %s)" % atom(v.code))
         raise Problem("call of %s%s with this argument list is not a supported primitive (%s)"
-                      % ("np." if target[0] == "np" else "", name, where))
+                      % ("np." if target[0] == "np" else "bisect." if target[0] == "bisect" else "", name, where))
 
 
 HEADER = """\
 /- GENERATED by harness/translate_py.py from the pure-Python sources of /repo's working tree on every
    run; do not edit.  One definition per translated function; the equalities with the hand-written
-   model are proved in Tables/SrcPy.lean. -/
+   model are proved in Tables/SrcPy.lean, Tables/SrcPyReal.lean and Tables/SrcPyKernels.lean. -/
 import BezierVerif.Model.Basic
 import BezierVerif.Model.Curve
 import BezierVerif.Model.Solve2x2
 import BezierVerif.Model.Helpers
+import BezierVerif.Model.Geometric
 
 set_option linter.unusedVariables false
 
